@@ -12,6 +12,10 @@
 
 namespace Theo {
 
+#ifdef THEO_VERIF
+struct VerifAccess;
+#endif
+
 class VM {
  public:
   typedef int Word, WordIndex;
@@ -38,6 +42,9 @@ class VM {
     VM::Activation::Data getActivationVariables();
 
     friend class VM;
+#ifdef THEO_VERIF
+    friend struct ::Theo::VerifAccess;
+#endif
   };
 
  private:
@@ -47,6 +54,10 @@ class VM {
   std::vector<Word> data;
   std::vector<Activation> stack;
   std::set<BreakPoint> enabled_breakpoints;
+
+#ifdef THEO_VERIF
+  friend struct ::Theo::VerifAccess;
+#endif
 
  public:
   VM(Program code);
